@@ -438,6 +438,14 @@ func c05Case(c *core.C) {
 			c.Sample(map[string]any{"origin": origin, "graph": gen.Canon(base.NodeList)})
 		}
 	}
+	// ---- every element of the input becomes a node: one per distinct identifier, one per element without identifier
+	if want, ok := expectedNodeCount(tree); ok {
+		c.Cover("node-count-checked")
+		if len(base.NodeList.Nodes) != want {
+			c.Violatef("element-lost-or-generated-id-collision", det, "the input has %d distinct elements (distinct identifiers plus elements without identifier) but the parsed graph has %d nodes (%s)", want, len(base.NodeList.Nodes), origin)
+			return
+		}
+	}
 	// ---- invariant monitor on the parsed graph
 	if resolves {
 		c.Cover("closure-checked")
@@ -609,4 +617,55 @@ func c05Ident(c *core.C) {
 			c.Cover("identifier-no-usable-seed")
 		}
 	}
+}
+
+
+// expectedNodeCount: for CycloneDX, distinct non-empty bom-refs plus components without bom-ref
+// (metadata.component and components[] recursively); for SPDX, the entries of packages[] and files[].
+func expectedNodeCount(tree *jsonx.Value) (int, bool) {
+	if tree.Get("bomFormat") != nil {
+		refs := gen.Set{}
+		anon := 0
+		var walk func(c *jsonx.Value)
+		walk = func(c *jsonx.Value) {
+			if c == nil || c.Kind != jsonx.Object {
+				return
+			}
+			if br := c.Get("bom-ref"); br != nil && br.Kind == jsonx.String && br.Str != "" {
+				refs.Add(br.Str)
+			} else {
+				anon++
+			}
+			if sub := c.Get("components"); sub != nil && sub.Kind == jsonx.Array {
+				for _, e := range sub.Elems {
+					walk(e)
+				}
+			}
+		}
+		if md := tree.Get("metadata"); md != nil && md.Kind == jsonx.Object {
+			if mc := md.Get("component"); mc != nil && mc.Kind == jsonx.Object {
+				walk(mc)
+			}
+		}
+		if cs := tree.Get("components"); cs != nil && cs.Kind == jsonx.Array {
+			for _, e := range cs.Elems {
+				walk(e)
+			}
+		}
+		return len(refs) + anon, true
+	}
+	if tree.Get("spdxVersion") != nil {
+		n := 0
+		for _, k := range []string{"packages", "files"} {
+			if a := tree.Get(k); a != nil && a.Kind == jsonx.Array {
+				for _, e := range a.Elems {
+					if e.Kind == jsonx.Object {
+						n++
+					}
+				}
+			}
+		}
+		return n, true
+	}
+	return 0, false
 }
